@@ -146,6 +146,8 @@ def direct_cases(draw):
             "thr": draw(st.sampled_from([0.9, 0.0, 1.0, 0.5, 0.99, 0.25])),
             "normalization": draw(st.booleans()), "suffix": draw(st.sampled_from(["", "", ".a", ".x1"])),
             "nold": draw(st.integers(0, 2)), "regularization": draw(st.booleans()),
+            "akernel": draw(st.sampled_from([1, 3, 5, 5])), "vdepth": draw(st.integers(0, 2)),
+            "athr": draw(st.sampled_from([0.6, 0.4, 0.8, 0.0, 1.0])),
             "win": win, "img": draw(st.lists(st.lists(st.integers(0, 9), min_size=Wi, max_size=Wi),
                                              min_size=Hi, max_size=Hi))}
 
@@ -181,6 +183,8 @@ def direct_body(ctx: Ctx, p: dict) -> None:
     if method == "interval_bounds":
         cfg.update(possibility_threshold=float(p["thr"]), regularization=p["regularization"],
                    ambiguity_indicator=sfx[1:] if sfx else "", quantile_regularization=1.0)
+        if "akernel" in p:
+            cfg.update(ambiguity_kernel_size=p["akernel"], vertical_depth=p["vdepth"], ambiguity_threshold=float(p["athr"]))
     before = build.snapshot(cvds)
     obj = cvc.AbstractCostVolumeConfidence(**cfg)
     _, out = obj.confidence_prediction(None, left, left, cvds)
@@ -327,7 +331,13 @@ def pipeline_cases(draw):
             cfg["normalization"] = False
         if m == "interval_bounds" and draw(st.booleans()):
             cfg["possibility_threshold"] = draw(st.sampled_from([0.5, 0.9, 1.0]))
-        confs.append([f"cost_volume_confidence.s{i}" if (n > 1 or draw(st.booleans())) else "cost_volume_confidence", cfg])
+        name = f"cost_volume_confidence.s{i}" if (n > 1 or draw(st.booleans())) else "cost_volume_confidence"
+        amb = [nm for nm, c in confs if c["confidence_method"] == "ambiguity"]
+        if m == "interval_bounds" and amb and draw(st.booleans()):
+            # regularised intervals read the ambiguity band of an earlier step
+            cfg.update(regularization=True, ambiguity_indicator=amb[-1].partition(".")[2],
+                       ambiguity_kernel_size=draw(st.sampled_from([1, 3, 5])), vertical_depth=draw(st.integers(0, 2)))
+        confs.append([name, cfg])
     agg = draw(st.booleans())
     npre = draw(st.integers(0, n)) if agg else n
     steps = [["matching_cost", {"matching_cost_method": measure, "window_size": win,
